@@ -21,6 +21,7 @@ from props.registry import REGISTRY, COMMON_TRUSTED   # noqa: E402
 from pyvc import runner                                # noqa: E402
 
 REPO = os.environ.get("VERIF_REPO", "/repo")
+OUT = os.environ.get("VERIF_OUT_DIR", ROOT)       # evidence/ and replays/ go here (scratch runs against a copy of the tree)
 VENV_PY = "/venv/bin/python"
 
 
@@ -180,7 +181,7 @@ def main():
     viol_lines = []
     known = load_known()
     known_open = [k for k in known.get("open", []) if k.get("property") == pid]
-    os.makedirs(os.path.join(ROOT, "replays"), exist_ok=True)
+    os.makedirs(os.path.join(OUT, "replays"), exist_ok=True)
     witness = None
     wlog = ""
     if by_name and not errors:
@@ -197,7 +198,7 @@ def main():
             known_hits.append(kf)
             continue
         h = hashlib.sha1((pid + name).encode()).hexdigest()[:10]
-        path = os.path.join(ROOT, "replays", "%s-%s.json" % (pid, h))
+        path = os.path.join(OUT, "replays", "%s-%s.json" % (pid, h))
         rp = {"property": pid, "obligation": name, "unit": o["unit"], "path": o.get("path"), "where": o.get("where"),
               "status": "sat", "backend": o.get("backend"), "model": o.get("model", {}),
               "witness": witness, "witness_search_log": wlog[-500:] if wlog else "",
@@ -272,8 +273,8 @@ def main():
         "wall_s": round(time.time() - t0, 2),
         "violations": reported,
     }
-    os.makedirs(os.path.join(ROOT, "evidence"), exist_ok=True)
-    json.dump(ev, open(os.path.join(ROOT, "evidence", pid + ".json"), "w"), indent=1)
+    os.makedirs(os.path.join(OUT, "evidence"), exist_ok=True)
+    json.dump(ev, open(os.path.join(OUT, "evidence", pid + ".json"), "w"), indent=1)
 
     print("property %s tier=%s: %d obligations, %d discharged, %d counterexample(s), %d undecided; %.1fs" % (
         pid, tier, n_ob, discharged, len(sat), len(unk), time.time() - t0))
@@ -288,7 +289,7 @@ def main():
         witness, evaluated, wlog = witness_search(pid, spec, 45 if tier == "quick" else 240)
         if witness is not None:
             h = hashlib.sha1((pid + "bounded-standin").encode()).hexdigest()[:10]
-            path = os.path.join(ROOT, "replays", "%s-%s.json" % (pid, h))
+            path = os.path.join(OUT, "replays", "%s-%s.json" % (pid, h))
             json.dump({"property": pid, "obligation": "bounded stand-in (deductive check not applicable to the changed code: %s)"
                        % errors[0]["error"].splitlines()[0], "unit": errors[0]["unit"], "status": "bounded-counterexample",
                        "backend": "executable oracle on the real code, %d cases evaluated" % evaluated, "model": {},
